@@ -329,7 +329,7 @@ def handleSc (order faults ae enc method etag : String) : String :=
          (etag == "0" || etag == "1" || etag == "2")) then "bad-op"
     else if !aeSupported aeB then "unsupported"
     else
-      match serveFile false (acceptedEncodings aeB false ord) (fun c => ord.contains c)
+      match serveFile false true (acceptedEncodings aeB false ord) (fun c => ord.contains c)
           (fun c => if c == vGzip then sg else if c == vZstd then sz else if c == vBr then sb else .absent)
           (etag == "2") (method == "P") (method == "H") with
       | .error status _ => "sc status=" ++ toString status
